@@ -66,7 +66,9 @@ for r in rows:
     out.append("| " + " | ".join(x.replace("|", "/") for x in r) + " |")
 caught_first = sum(1 for r in rows if r[3] == "caught")
 still = sum(1 for r in rows if r[4] == "-")
-out += ["", f"{len(rows)} changes; {caught_first} caught by the checks as they stood when the change arrived, {len(rows) - caught_first - still} missed at first and caught after the "
+neighbour = sum(1 for r in rows if r[3].startswith("missed by") and "(caught by" in r[3])
+out += ["", f"{len(rows)} changes; {caught_first} caught at once by the check of the property they target, {neighbour} missed by that check but caught at once by the check of a "
+        f"neighbouring property (most of those target checks were strengthened too), {len(rows) - caught_first - still - neighbour} missed by every check at first and caught after the "
         f"strengthening listed (each re-verified), {still} not caught (explained in its row).",
         "C20 (C++ back-end) has no sub-agent seed: the agents cannot rebuild the extension; its sensitivity is covered by mutants/strl.json."]
 open(os.path.join(HERE, "seeded", "RESULTS.md"), "w").write("\n".join(out) + "\n")
